@@ -14,7 +14,10 @@ package c11
 //  T6 fractional/exponent id : `1.5`, `1e2` may be rejected (-32600) or accepted and echoed literally.
 //  T7 `"method":""`          : -32600 or -32601.
 //  T8 `"params":null`        : treated as absent, or rejected as invalid request (-32600).
-//  T9 null for a non-pointer : bound as the Go zero value, or rejected -32602.
+//  T9 null for a non-pointer : bound as the Go zero value, or rejected -32602. Applies to the plain kinds (int, string,
+//                              bool, uint64, slice, map, struct) at any depth; it does NOT excuse a null for a by-value
+//                              json.Unmarshaler that refuses null, nor a zero value the configured validator refuses
+//                              (typemodel_test.go).
 //  T10 duplicate member names / non-UTF-8 bytes inside strings: only the response grammar is checked.
 //  T11 -32602 vs -32601 order: n/a (unknown method is always -32601).
 
@@ -41,7 +44,27 @@ const (
 	tStr
 	tPInt
 	tInts
+	// typed classes (types_test.go / typemodel_test.go)
+	tFelt    // felt.Felt by value: a json.Unmarshaler that refuses null
+	tPFelt   // *felt.Felt
+	tBlk     // hblk by value: harness union type with UnmarshalJSON, refuses null
+	tPBlk    // *hblk
+	tPage    // Page by value: validated struct whose zero value violates the validator
+	tPPage   // *Page
+	tOpts    // opts by value: validated struct whose zero value passes
+	tFilt    // filt by value: embedded + nested members
+	tPFilt   // *filt
+	tFelts   // []felt.Felt
+	tPages   // []Page
+	tPageMap // map[string]Page
+	tAny     // any
+	tBool
+	tU64
 )
+
+var ptypeName = map[ptype]string{tInt: "int", tStr: "string", tPInt: "*int", tInts: "[]int", tFelt: "felt", tPFelt: "*felt", tBlk: "hblk",
+	tPBlk: "*hblk", tPage: "Page", tPPage: "*Page", tOpts: "opts", tFilt: "filt", tPFilt: "*filt", tFelts: "[]felt", tPages: "[]Page",
+	tPageMap: "map[string]Page", tAny: "any", tBool: "bool", tU64: "uint64"}
 
 type pdesc struct {
 	name string
@@ -56,6 +79,7 @@ const (
 	kErr          // returns *jsonrpc.Error{Code:7,"boom",Data:a}
 	kHdr          // 3-tuple with http.Header
 	kNil          // returns (nil, nil)
+	kEcho         // returns the signature it was invoked with (typed methods)
 )
 
 type mdesc struct {
@@ -69,14 +93,24 @@ type mdesc struct {
 var methodTable = []mdesc{
 	{"m0", nil, kNormal},
 	{"m1", []pdesc{{"a", tInt, false}}, kNormal},
-	{"m2", []pdesc{{"z", tInt, false}, {"b", tStr, false}}, kNormal},                        // + context
-	{"m3", []pdesc{{"z", tInt, false}, {"b", tStr, false}, {"c", tPInt, true}}, kNormal},    // optional tail
-	{"mo", []pdesc{{"z", tPInt, true}, {"b", tPInt, true}}, kNormal},                        // + context, all optional
-	{"mx", []pdesc{{"z", tStr, false}, {"b", tPInt, true}}, kNormal},                        // + context, optional tail of ANOTHER type than its neighbour
-	{"mc", []pdesc{{"l", tInts, false}, {"a", tInt, false}}, kNormal},                       // composite param
+	{"m2", []pdesc{{"z", tInt, false}, {"b", tStr, false}}, kNormal},                     // + context
+	{"m3", []pdesc{{"z", tInt, false}, {"b", tStr, false}, {"c", tPInt, true}}, kNormal}, // optional tail
+	{"mo", []pdesc{{"z", tPInt, true}, {"b", tPInt, true}}, kNormal},                     // + context, all optional
+	{"mx", []pdesc{{"z", tStr, false}, {"b", tPInt, true}}, kNormal},                     // + context, optional tail of ANOTHER type than its neighbour
+	{"mc", []pdesc{{"l", tInts, false}, {"a", tInt, false}}, kNormal},                    // composite param
 	{"me", []pdesc{{"a", tInt, false}}, kErr},
 	{"mh", []pdesc{{"a", tInt, false}}, kHdr},
 	{"mn", nil, kNil},
+	// typed parameter classes, shaped after real juno handlers (types_test.go)
+	{"xf", []pdesc{{"h", tFelt, false}}, kEcho},                                           // getClass(class_hash felt.Felt)
+	{"xg", []pdesc{{"id", tBlk, false}, {"h", tFelt, false}, {"o", tPFelt, true}}, kEcho}, // + context; Class(id BlockID, hash felt.Felt)
+	{"xr", []pdesc{{"id", tPBlk, false}, {"h", tPFelt, false}}, kEcho},                    // required pointers, as rpc/v10 declares them
+	{"xp", []pdesc{{"p", tPage, false}}, kEcho},                                           // validated struct by value
+	{"xq", []pdesc{{"z", tInt, false}, {"p", tPage, false}, {"o", tPPage, true}}, kEcho},  // ... next to a plain and an optional pointer one
+	{"xn", []pdesc{{"f", tFilt, false}, {"g", tPFilt, true}}, kEcho},                      // + context; Events(args EventArgs)
+	{"xs", []pdesc{{"l", tFelts, false}, {"ps", tPages, false}}, kEcho},                   // slices of unmarshalers / validated structs
+	{"xm", []pdesc{{"mp", tPageMap, false}, {"v", tAny, false}}, kEcho},                   // map of validated structs, any
+	{"xo", []pdesc{{"o", tOpts, false}, {"b", tBool, false}, {"n", tU64, false}}, kEcho},  // zero value passes the validator; bool; uint64
 }
 
 func methodByName(n string) *mdesc {
@@ -153,8 +187,13 @@ func ctxS(ctx context.Context) string {
 	return ""
 }
 
-func newServer(h *harness, poolSize int) *jsonrpc.Server {
+func newServer(h *harness, poolSize int) *jsonrpc.Server { return newServerCfg(baseCfg, h, poolSize) }
+
+func newServerCfg(c cfg, h *harness, poolSize int) *jsonrpc.Server {
 	s := jsonrpc.NewServer(poolSize, log.NewNopZapLogger())
+	if c.validator {
+		s = s.WithValidator(newValidator())
+	}
 	P := func(ps ...pdesc) []jsonrpc.Parameter {
 		var out []jsonrpc.Parameter
 		for _, p := range ps {
@@ -163,6 +202,9 @@ func newServer(h *harness, poolSize int) *jsonrpc.Server {
 		return out
 	}
 	T := func(n string) []jsonrpc.Parameter { return P(methodByName(n).params...) }
+	if err := s.RegisterMethods(typedMethods(h, T)...); err != nil {
+		panic("register typed: " + err.Error())
+	}
 	err := s.RegisterMethods(
 		jsonrpc.Method{Name: "m0", Params: T("m0"), Handler: func() (any, *jsonrpc.Error) {
 			h.rec("m0()")
@@ -220,9 +262,13 @@ type argval struct {
 	i    int64
 	s    string
 	l    []int64
+	c    string // typed classes: canonical text (what the handler prints)
 }
 
 func (a argval) String() string {
+	if a.typ >= tFelt {
+		return a.c
+	}
 	switch a.typ {
 	case tInt:
 		return strconv.FormatInt(a.i, 10)
@@ -246,12 +292,19 @@ func (a argval) String() string {
 }
 
 func zeroArg(t ptype) argval {
+	if t >= tFelt {
+		return argval{typ: t, c: zeroTyped(t)}
+	}
 	return argval{typ: t, null: t == tPInt || t == tInts}
 }
 
 // convert: ok / reject; nullTol set when a null met a non-pointer parameter (T9).
-func convert(v *jv, t ptype) (a argval, ok, nullTol bool) {
+func convert(c cfg, v *jv, t ptype) (a argval, ok, nullTol bool) {
 	a.typ = t
+	if r, typed := modelTyped(c, v, t); typed {
+		a.c = r.c
+		return a, r.ok, r.ok && r.tol
+	}
 	switch t {
 	case tInt, tPInt:
 		if v.k == 'n' {
@@ -283,7 +336,12 @@ func convert(v *jv, t ptype) (a argval, ok, nullTol bool) {
 			return a, false, false
 		}
 		a.l = []int64{}
+		tol := false
 		for _, e := range v.arr {
+			if e.k == 'n' { // T9 one level down
+				a.l, tol = append(a.l, 0), true
+				continue
+			}
 			if e.k != '#' || !plainInt(e.s) {
 				return a, false, false
 			}
@@ -293,7 +351,7 @@ func convert(v *jv, t ptype) (a argval, ok, nullTol bool) {
 			}
 			a.l = append(a.l, n)
 		}
-		return a, true, false
+		return a, true, tol
 	}
 }
 
@@ -302,7 +360,7 @@ type bindAlt struct {
 	args []argval
 }
 
-func bind(m *mdesc, pa *jv) []bindAlt {
+func bind(c cfg, m *mdesc, pa *jv) []bindAlt {
 	reject := []bindAlt{{ok: false}}
 	zeros := func(from int, args []argval) []argval {
 		for i := from; i < len(m.params); i++ {
@@ -324,7 +382,7 @@ func bind(m *mdesc, pa *jv) []bindAlt {
 			return reject
 		}
 		for i, e := range pa.arr {
-			a, ok, nt := convert(e, m.params[i].typ)
+			a, ok, nt := convert(c, e, m.params[i].typ)
 			if !ok {
 				return reject
 			}
@@ -344,7 +402,7 @@ func bind(m *mdesc, pa *jv) []bindAlt {
 				continue
 			}
 			used++
-			a, ok, nt := convert(e, p.typ)
+			a, ok, nt := convert(c, e, p.typ)
 			if !ok {
 				return reject
 			}
@@ -374,6 +432,8 @@ func sig(m *mdesc, args []argval) string {
 
 func resultCanon(m *mdesc, args []argval) string {
 	switch m.kind {
+	case kEcho:
+		return "R" + qS(sig(m, args))
 	case kErr:
 		return "E7/boom/" + args[0].String()
 	case kNil:
@@ -411,7 +471,7 @@ var altInvalidNull = []alt{errAlt("null", -32600)}
 
 // oracleEntry returns the acceptable behaviours for one element (single request or batch member).
 // unconstrained=true (T10) means only the grammar of whatever comes back is checked.
-func oracleEntry(v *jv, tolNotif bool) (alts []alt, isNotification bool) {
+func oracleEntry(c cfg, v *jv, tolNotif bool) (alts []alt, isNotification bool) {
 	if v.k != '{' {
 		return altInvalidNull, false
 	}
@@ -478,7 +538,7 @@ func oracleEntry(v *jv, tolNotif bool) (alts []alt, isNotification bool) {
 			}
 			continue
 		}
-		for _, b := range bind(m, pa) {
+		for _, b := range bind(c, m, pa) {
 			switch {
 			case !b.ok && md.respond:
 				alts = append(alts, errAlt(md.id, -32602))
@@ -654,6 +714,11 @@ func match(entries [][]alt, resps, calls []string) bool {
 var altParseErr = alt{resp: "id=null|E-32700"}
 
 func judge(input, out []byte, calls []string, tolNotif bool) verdict {
+	return judgeCfg(baseCfg, input, out, calls, tolNotif)
+}
+
+// judgeCfg judges one document against the model of a server configured as c.
+func judgeCfg(c cfg, input, out []byte, calls []string, tolNotif bool) verdict {
 	calls = sortedCopy(calls)
 	v, ok, trailing, lenient, dup := parsePrefix(input)
 
@@ -723,14 +788,14 @@ func judge(input, out []byte, calls []string, tolNotif bool) verdict {
 	case dup || lenient: // T10
 		return verdict{outcome: outcome}
 	case v.k == '{':
-		a, n := oracleEntry(v, tolNotif)
+		a, n := oracleEntry(c, v, tolNotif)
 		entries, notif = [][]alt{a}, []bool{n}
 	case v.k == '[' && len(v.arr) == 0:
 		entries = [][]alt{altInvalidNull}
 	case v.k == '[':
 		wantArray = true
 		for _, e := range v.arr {
-			a, n := oracleEntry(e, tolNotif)
+			a, n := oracleEntry(c, e, tolNotif)
 			entries = append(entries, a)
 			notif = append(notif, n)
 		}
@@ -765,11 +830,11 @@ func judge(input, out []byte, calls []string, tolNotif bool) verdict {
 		// allowed to be answered with -32601 / -32602 and id null? Then that is exactly what happened.
 		var e2 [][]alt
 		if v.k == '{' {
-			a, _ := oracleEntry(v, true)
+			a, _ := oracleEntry(c, v, true)
 			e2 = [][]alt{a}
 		} else {
 			for _, e := range v.arr {
-				a, _ := oracleEntry(e, true)
+				a, _ := oracleEntry(c, e, true)
 				e2 = append(e2, a)
 			}
 		}
